@@ -144,6 +144,21 @@ class SeriesSym(P.PolySym):
                 except (ValueError, ZeroDivisionError) as ex:
                     raise S.Unsupported("%s: %s" % (name, ex))
                 raise S.Unsupported("%s of a jet" % name)
+        if cls.startswith("Eigen::") and name == "isZero" and obj is not None:
+            m = S.as_mat(self.ev(obj, env))
+            if m is not None and all(isinstance(x, (S.Aff, S.Poly)) for x in m.cells):
+                cells = [J.lift(x) for x in m.cells]
+                if all(not c_.c for c_ in cells):
+                    return True
+                syms = set()
+                for c_ in cells:
+                    for v_ in c_.c.values():
+                        syms |= {str(y) for y in v_.free_symbols}
+                pure = all(set(c_.c) <= {1} and (not c_.c or c_.c[1].is_Symbol) for c_ in cells)
+                if pure and hasattr(self, "zero_requests"):
+                    self.zero_requests.add(frozenset(syms))
+                    return False        # generic point; the world in which these inputs vanish is evaluated separately
+                raise S.Unsupported("isZero() of computed symbolic data")
         if cls.startswith("Eigen::") and name in ("squaredNorm", "norm", "normalized") and obj is not None:
             m = S.as_mat(self.ev(obj, env))
             if m is not None and all(isinstance(x, (S.Aff, S.Poly)) for x in m.cells) and any(isinstance(x, J.JetNum) for x in m.cells):
@@ -228,7 +243,7 @@ def mat_jets(m):
 TOL = {"double": {"value": 1e-9, "jac": 1e-7}, "float": {"value": 1e-4, "jac": 1e-3}}      # as R-JET
 
 
-def analyse(rep, prop, v, what, order_exp=5, order_jac=4, world=None, scalar="double", switches_out=None, also=()):
+def analyse(rep, prop, v, what, order_exp=5, order_jac=4, world=None, scalar="double", switches_out=None, also=(), zero=frozenset()):
     """what: subset of {'exp','log','expjac','logjac','adjexp','rjac','ljac','rjacinv','ljacinv'}"""
     what = set(what)
     tcls, gcls, dof, rep_n = TAN[v]
@@ -244,10 +259,13 @@ def analyse(rep, prop, v, what, order_exp=5, order_jac=4, world=None, scalar="do
         sym.world, sym.scalar = world, scalar
         cs = [sp.Symbol("c%d" % i) for i in range(dof)]
         m = S.Mat(dof, 1)
-        m.cells = [J.JetNum({1: c}) for c in cs]
+        m.cells = [(J.JetNum({1: c}) if str(c) not in zero else S.Aff(0)) for c in cs]
+        sym.zero_requests = set()
+        ztag = "" if not zero else " [input world %s = 0]" % " = ".join(sorted(zero))
         t = S.Obj(S.View(m, 0, 0, dof, 1))
-        H = sp.Matrix([[S.to_sym(TT.H.get(r, c)) for c in range(TT.H.C)] for r in range(TT.H.R)])
-        AD = sp.Matrix([[S.to_sym(TT.smallAdj.get(r, c)) for c in range(dof)] for r in range(dof)])
+        zsub = {sp.Symbol(z): 0 for z in zero}
+        H = sp.Matrix([[S.to_sym(TT.H.get(r, c)) for c in range(TT.H.C)] for r in range(TT.H.R)]).subs(zsub)
+        AD = sp.Matrix([[S.to_sym(TT.smallAdj.get(r, c)) for c in range(dof)] for r in range(dof)]).subs(zsub)
         Idof = sp.eye(dof)
         rdim = 2 if v in ("SO2", "SE2") else 3
         angular = sorted({cs.index(x) for r in range(rdim) for c in range(rdim) for x in H[r, c].free_symbols if x in cs})   # rotation block of hat
@@ -255,7 +273,7 @@ def analyse(rep, prop, v, what, order_exp=5, order_jac=4, world=None, scalar="do
             raise C.AnalysisBroken("R-SERIES: cannot identify the angular coefficients of %s from its hat table (%s)" % (v, angular))
 
         def F_(rule, site, msg, f):
-            return C.Finding(prop, rule, "%s:%s" % (own_t, site), msg, f["file"], f["line"])
+            return C.Finding(prop, rule, "%s:%s%s" % (own_t, site, ztag), msg + ztag, f["file"], f["line"])
 
         def ev(f, this, argv, whatf):
             try:
@@ -406,6 +424,10 @@ def analyse(rep, prop, v, what, order_exp=5, order_jac=4, world=None, scalar="do
         S.POLY, S.JET = old
         if switches_out is not None:
             switches_out |= sym.switches
+    # data-dependent `x.isZero()` tests on input coefficients: the generic world took them as false; evaluate the other side
+    if not zero and world is None:
+        for Z in sorted(sym.zero_requests, key=sorted)[:4]:
+            n_obl += analyse(rep, prop, v, what, order_exp, order_jac, None, scalar, None, (), frozenset(Z))
     return n_obl
 
 
